@@ -13,7 +13,7 @@ RULE = ("Hypothesis draws session histories with a teardown point: encoder torn 
         "session, no ASan error. non-trivial = teardown with >=1 picture in flight (sent, EOS not reached) or >=3 sessions in the process or a decoder session that decoded "
         ">=1 TU; distinct = program hash.")
 ASSUMPTIONS = ["'does not grow' is decided by LeakSanitizer's reachability analysis at each teardown, not by heap size (glibc arenas make byte-exact heap equality a flaky oracle)",
-               "decoder sessions decode with 32 bytes of slack after each packet (by-construction exclusion of the known over-read)"]
+               "decoder packets are passed in exact-size heap buffers"]
 CFGS = ["source_width=64 source_height=64 enc_mode=8 logical_processors=%d recon_enabled=%d",
         "source_width=96 source_height=80 enc_mode=7 logical_processors=%d recon_enabled=%d hierarchical_levels=3",
         "source_width=64 source_height=64 enc_mode=6 logical_processors=%d recon_enabled=%d encoder_bit_depth=10",
